@@ -355,6 +355,7 @@ fn run_fit<T: Sc>(idx: usize, sc: &Scenario) -> ScenOut {
         threads: 2,
         post_jac: idx % 2 == 1,
         refit: idx % 4 == 3,
+        eps: None,
     };
     let _ = eps;
     let mut steps = Vec::new();
